@@ -26,7 +26,8 @@ register('C06', 'exploration',
 register('C09', 'exploration',
          "SCOPED to the history half: seeded assembly variants (load order through list constructor / add_schema / "
          "import_schema / include_schema on a build=False schema), repeated build, clear+rebuild, copy, maps.copy, pickle "
-         "round trips inside usage histories and restart in a fresh interpreter under another PYTHONHASHSEED must give the "
+         "round trips inside usage histories and restart in a fresh interpreter under another PYTHONHASHSEED (restored from "
+         "the pickle, and rebuilt from the source files as the first schema of that interpreter) must give the "
          "same global components and probe results as the canonical assembly. Textual permutation/splitting/spelling is "
          "not examined.",
          TB + "; probes run on forked copies so they do not form a usage history themselves",
@@ -65,9 +66,10 @@ register('C12', 'fault_enumeration',
          "deterministic simulation: simulated file tree + stub network peer + audit-hook monitor, enumerated with fetch-fault injection",
          'DESIGN.md 3 C12')
 register('C13', 'fault_enumeration',
-         "every (payload, channel) pair of the catalogue (10 entity/DTD payloads + 3 benign x 33 channels) is enumerated "
+         "every (payload, channel) pair of the catalogue (10 entity/DTD payloads + 3 benign x 34 channels incl. an object that only has read()) is enumerated "
          "each run; defuse mode, role (instance, lazy instance, via schema settings, main/included/imported/redefined "
-         "schema, schema reached through a hint or handed to the document-level API, from_settings, XmlDocument.parse), "
+         "schema, schema reached through a hint or handed to the document-level API, from_settings, XmlDocument.parse, the constructor "
+         "with global_maps, the validate / xml2json commands run in process), "
          "prolog variant (BOM, UTF-16, latin-1, padding past 8/16/64 KiB) and delivery plan (incl. cuts inside '<!ENTITY') "
          "are seeded; the peer may re-serve different bytes on the second open, a schema part may live on the other side "
          "(local/remote) of the main schema, one read of the stream may fail once during the pre-parse. Oracle: forbidden before expansion, no "
@@ -78,7 +80,8 @@ register('C13', 'fault_enumeration',
 register('C18', 'exploration',
          "2-4 real threads, serialised by a seeded baton scheduler that pre-empts at every function call inside "
          "xmlschema/elementpath and at every (replaced) library lock operation, run programs of 1-3 operations on one "
-         "shared schema: built before sharing, racing build, shared lazy resource; policies: uniform switching, PCT, "
+         "shared schema: built before sharing, racing build (also of a use_meta=False schema, whose build registers the "
+         "meta-schema documents), shared lazy resource; policies: uniform switching, PCT, "
          "targeted, run-to-completion. Every result must equal the pristine sequential reference, the racing build must "
          "run the build body exactly once into the sequential state, no deadlock, no residue in a sequential epilogue. "
          "The recorded schedule is the replay trace and is minimised with ddmin.",
